@@ -1,8 +1,8 @@
 /-
   The external pieces of the regenerated `Component.add` (ICal/Gen/BodiesAdd.lean, tools/py2lean.py) as the hand model
   of ICal/Model/Encode.lean has them: the mapping is the list of stored entries; the argument is one `PyVal` or a list of
-  them; `self._encode(name, x, parameters, 1)` is `encodeOne` for an object and `encodeWhole` for a list handed over as a
-  whole; `isinstance(value, datetime)` holds of a datetime atom, `tzp.localize_utc` is `DT.toUtc`; `name in self`,
+  them; `self._encode(name, x, parameters, 1)` is the TRANSLATED `_encode` for an object (proved equal to `encodeOne`) and the
+  model's `encodeWhole` for a list handed over as a whole; `isinstance(value, datetime)` holds of a datetime atom, `tzp.localize_utc` is `DT.toUtc`; `name in self`,
   `self[name]`, `self[name] = v` work on the upper-cased name (a stored entry that is no list holds one value).
   The model's marker `unmodelled` travels as `Exc.fuel` (no Python exception).  Shared by ICal/Lemmas/BodiesAdd.lean and
   ICal/Driver/BodiesAdd.lean.  The pieces are given BY NAME.
@@ -27,9 +27,37 @@ def isDatetimeU : PyOneMany PyVal → Bool
 def localizeUtcU : PyOneMany PyVal → PyOneMany PyVal
   | .one (.atom (.dt t)) => .one (.atom (.dt t.toUtc))
   | u => u
+/-! ### `Component._encode` -/
+
+/-- what `_encode` handles: the caller's value, or the value object made of it -/
+inductive EncObj where
+  | raw (v : PyVal)
+  | obj (o : Val)
+
+/-- the value object an `EncObj` stands for (an instance of `types_factory.all_types` is its own object) -/
+def EncObj.val : EncObj → Val
+  | .raw v => (keptTyped v).getD default
+  | .obj o => o
+def isTypedE : EncObj → Bool
+  | .raw v => (keptTyped v).isSome
+  | .obj _ => true
+def constructE (klass : Str) : EncObj → Py EncObj
+  | .raw v => liftEnc ((construct1 klass v).map EncObj.obj)
+  | .obj o => .ok (.obj o)
+def paramsHasE (o : EncObj) (k : Str) : Bool := o.val.params.any (fun e => e.1 == upper k)
+def paramsDelE (o : EncObj) (k : Str) : EncObj := .obj { o.val with params := o.val.params.filter (fun e => e.1 != upper k) }
+def paramsSetE (o : EncObj) (k : Str) (v : PVal) : EncObj := .obj { o.val with params := Params.put o.val.params (upper k) v }
+
+/-- the translated `Component._encode(name, value, parameters, 1)`: `parameters` is the list of its items (empty: None or {}) -/
+def encodeOneP (name : Str) (v : PyVal) (upd : List (Str × Option PVal)) : Py EncObj :=
+  Component_encode (name := name) (value := EncObj.raw v) (parameters := upd) (encode := 1) (is_typed := isTypedE)
+    (for_property := forProperty) (construct := constructE) (has_parameters := fun u => !u.isEmpty)
+    (has_params := fun _ => true) (no_params := ([] : Params)) (set_params := fun o _ => o) (items_of := fun u => u)
+    (params_has := paramsHasE) (params_del := paramsDelE) (params_set := paramsSetE)
+
 def encodeU (upd : List (Str × Option PVal)) (name : Str) (u : PyOneMany PyVal) (_ : Unit) (_ : Int) : Py Val :=
   match u with
-  | .one v => liftEnc (encodeOne name v upd)
+  | .one v => (encodeOneP name v upd).map EncObj.val       -- the translated `_encode`
   | .many xs => liftEnc (encodeWhole name (.list xs) upd)
 def hasKeyU (props : List Entry) (name : Str) : Bool := (props.find? (fun e => e.name == upper name)).isSome
 def getItemU (props : List Entry) (name : Str) : Py (PyOneMany Val) :=
@@ -45,5 +73,24 @@ def componentAddP (props : List Entry) (name : Str) (a : PyArg) (upd : List (Str
   Component_add (self_ := props) (name := name) (value := argU a) (parameters := ()) (encode := 1)
     (is_datetime := isDatetimeU) (localize_utc := localizeUtcU) (encode_value := encodeU upd)
     (has_key := hasKeyU) (get_item := getItemU) (set_item := setItemU)
+
+/-! ### `vDDDLists.__init__` -/
+
+def hasTzidL (o : Val) : Bool := (Params.get? o.params kTZID).isSome
+def tzidOfL (o : Val) : PVal := (Params.get? o.params kTZID).getD (.one [])
+def valueOfL (o : Val) : Option PVal := Params.get? o.params kVALUE
+def tzidTruthyL : Option PVal → Bool
+  | some z => Enc.truthy z
+  | none => false
+/-- `self.params[key] = x` (a stored None is outside the model: the source guards it) -/
+def paramsSetL (ps : Params) (k : Str) : Option PVal → Params
+  | some v => Params.put ps k v
+  | none => ps
+
+/-- the translated `vDDDLists.__init__`: the parameters it derives and the list of value objects -/
+def dddListsInitP (l : PyOneMany PyVal) : Py (Params × List Val) :=
+  vDDDLists_init (dt_list := l) (params := ([] : Params)) (dts := ([] : List Val)) (make_ddd := fun v => liftEnc (mkDDD v))
+    (has_tzid := hasTzidL) (tzid_of := tzidOfL) (no_params := ([] : Params)) (value_of := valueOfL)
+    (tzid_truthy := tzidTruthyL) (params_set := paramsSetL)
 
 end ICal.Bodies
